@@ -37,6 +37,8 @@ pub struct ClientLog {
 }
 
 pub struct Servers {
+    /// watchdog for "must happen without further traffic": at least 1.5 s, scaled up on a loaded machine
+    pub prompt: Duration,
     pub rt: tokio::runtime::Runtime,
     pub tls: TlsServer,
     pub ssh: SshServer,
@@ -53,12 +55,28 @@ impl Servers {
 
     pub fn start(tag: &str) -> Self {
         peers::install_tap();
-        Self {
+        let mut this = Self {
+            prompt: PROMPT,
             rt: tokio::runtime::Builder::new_multi_thread().worker_threads(2).enable_all().build().expect("client runtime"),
             tls: TlsServer::start(),
             ssh: SshServer::start(),
             local: LocalServer::start(tag),
+        };
+        // calibrate: how long does a complete loopback session establishment take right now?
+        let mut worst = Duration::ZERO;
+        for _ in 0..3 {
+            let t = Instant::now();
+            let running = start(&this, Xport::Tls, ClientPlan { requests: 0, followup: false, idle_before: Duration::ZERO });
+            if let Some(mut peer) = running.peer {
+                _ = peer.send_chunk(server_hello().as_bytes());
+                _ = wait_until(Duration::from_secs(10), || running.log.lock().unwrap().established.is_some());
+                worst = worst.max(t.elapsed());
+                peer.close(CloseKind::Eof);
+            }
+            running.task.abort();
         }
+        this.prompt = PROMPT.max(worst * 40);
+        this
     }
 }
 
@@ -255,7 +273,7 @@ pub fn run_seg(servers: &Servers, case: &SegCase) -> SegOutcome {
         }
     }
     // the hello is complete: the session must be established without further traffic
-    let est = wait_until(PROMPT, || log.lock().unwrap().established.is_some());
+    let est = wait_until(servers.prompt, || log.lock().unwrap().established.is_some());
     let established_ok = matches!(log.lock().unwrap().established, Some(Ok(())));
     if !est {
         problems.push(("hello-not-delivered-when-complete".into(), "the complete hello (delimiter included) has arrived but session establishment does not finish".into()));
@@ -296,7 +314,7 @@ pub fn run_seg(servers: &Servers, case: &SegCase) -> SegOutcome {
                     // matter of the session layer (a parked reply is collected when the current reader
                     // yields) and is judged at the end
                     let want = splits_before + k as u64 + 1;
-                    let ok = !tap_alive || wait_until(PROMPT, || peers::SPLITS.load(std::sync::atomic::Ordering::SeqCst) >= want || log.lock().unwrap().results.get(k).is_some_and(Option::is_some));
+                    let ok = !tap_alive || wait_until(servers.prompt, || peers::SPLITS.load(std::sync::atomic::Ordering::SeqCst) >= want || log.lock().unwrap().results.get(k).is_some_and(Option::is_some));
                     if !ok {
                         problems.push(("message-not-delivered-when-complete".into(), format!("reply {} is complete on the wire (delimiter included) but the transport does not hand it to the session layer without further traffic", k + 1)));
                     }
@@ -511,7 +529,7 @@ pub fn run_close(servers: &Servers, case: &CloseCase) -> Vec<(String, String)> {
         }
     }
     // everything pending and the follow-up request must resolve in bounded time
-    let done = wait_until(Duration::from_millis(2500), || log.lock().unwrap().done);
+    let done = wait_until(servers.prompt + Duration::from_millis(1000), || log.lock().unwrap().done);
     let waited = t0.elapsed();
     let cpu = cpu_time().saturating_sub(cpu_before);
     let zero = peers::ZERO_READS.load(std::sync::atomic::Ordering::SeqCst) - zero_before;
@@ -674,7 +692,7 @@ pub fn run_framing(report: &mut Report) -> u64 {
                     report.violation(&format!("C12:no-usable-request:{xport:?}"), "negotiated :base:1.0 but no end-of-message framed request arrived", case.clone());
                 }
                 _ = peer.send_chunk(reply_for(1).as_bytes());
-                let ok = wait_until(PROMPT, || running.log.lock().unwrap().results.first().is_some_and(Option::is_some));
+                let ok = wait_until(servers.prompt, || running.log.lock().unwrap().results.first().is_some_and(Option::is_some));
                 let good = matches!(running.log.lock().unwrap().results.first(), Some(Some((Ok(_), _))));
                 if !ok || !good {
                     report.violation(&format!("C12:established-session-unusable:{xport:?}"), &format!("the request on the established session did not succeed: {:?}", running.log.lock().unwrap().results.first()), case);
